@@ -37,15 +37,19 @@ inductive Expr where
   | unaryOp (operand : Expr) (r : Range)
   | compare (left : Expr) (comps : List Expr) (r : Range)
   | await (value : Expr) (r : Range)
-  | yield (r : Range)
-  | yieldFrom (r : Range)
+  /-- `value`: the yielded expression when there is one (at most one element) -/
+  | yield (value : List Expr) (r : Range)
+  | yieldFrom (value : List Expr) (r : Range)
+  /-- a form that only combines sub-expressions and binds nothing - boolean operators, conditional
+      expressions, set displays, starred items, slices, f-strings: `parts` in source order -/
+  | group (parts : List Expr) (r : Range)
   | other (r : Range)
   deriving Repr, Inhabited
 
 def Expr.range : Expr → Range
   | .name _ r | .attribute _ _ r | .call _ _ _ _ r | .constant _ r | .list _ r | .tuple _ r
   | .dict _ _ r | .subscript _ _ r | .binOp _ _ _ r | .unaryOp _ r | .compare _ _ r
-  | .await _ r | .yield r | .yieldFrom r | .other r => r
+  | .await _ r | .yield _ r | .yieldFrom _ r | .group _ r | .other r => r
 
 /-- one parameter: name and the position where its name starts. -/
 structure Arg where
